@@ -101,7 +101,7 @@ def check(ctx):
     removes = [n for n in sbody if any(
         K.is_meth(c, 'remove') and c.args and
         N.txt(c.args[0]) == '%s.name' % victim for c in C.node_calls(n))]
-    ctx.require(removes, 'victim removal in the scan')
+    ctx.require(removes, 'victim removal in the scan', rule='C07.2')
 
     def general_failed(edge):
         for atom in nz.facts_of_edge(edge):
@@ -157,7 +157,7 @@ def check(ctx):
                 isinstance(node.ast.targets[0], ast.Subscript) and \
                 N.txt(node.ast.targets[0].slice) == victim:
             maps[N.txt(node.ast.targets[0].value)] = node
-    ctx.require(maps, 'restore map keyed by the victim')
+    ctx.require(maps, 'restore map keyed by the victim', rule='C07.3')
     mname, mnode = sorted(maps.items())[0]
     for rnode in removes:
         ok = K.guarded_by(graph, rnode, lambda e: e.src is mnode,
@@ -201,7 +201,7 @@ def check(ctx):
     general = [n for n in body if any(
         K.is_meth(c, 'put') and K.recv_text(c) == 'self' and c.args and
         N.txt(c.args[0]) == var for c in C.node_calls(n))]
-    ctx.require(general, 'general placement self.put(%s)' % var)
+    ctx.require(general, 'general placement self.put(%s)' % var, rule='C07.3')
     for mtest in mtests:
         def restores(node):
             return any(K.is_meth(c, 'restore') and c.args and
@@ -264,7 +264,7 @@ def check(ctx):
     # ---- C07.4 -----------------------------------------------------------
     own = [n for n in body if any(loop.removes(c)
                                   for c in C.node_calls(n))]
-    ctx.require(own, 'removals of the current instance')
+    ctx.require(own, 'removals of the current instance', rule='C07.4')
     for rnode in own:
         def justified(e):
             for atom in nz.facts_of_edge(e):
